@@ -544,6 +544,45 @@ def _counts(ctx, case):
     ctx.evaluations += 2
 
 
+def _literals(ctx, n):
+    """a decimal literal in a source denotes exactly that integer wherever the language takes one: PUSH (all sizes), the explicit
+    PUSH1 / PUSH2 forms, the tape divisors of DIV_INT / MOD_INT, a variable assignment - however many digits it has"""
+    P_ = env.parsing
+    e = enc_ref(n)
+    cnt = 0
+    forms = [('OP_PUSH d%d' % n, 'stack'), ('push d%d' % n, 'stack'), ('@= v [ d%d ] @v' % n, 'stack')]
+    if len(e) <= 255:
+        forms += [('OP_PUSH1 d%d' % n, 'stack'), ('OP_DIV_INT d%d' % n, 'lv1'), ('OP_MOD_INT d%d' % n, 'lv1')]
+    if len(e) <= 65535:
+        forms += [('OP_PUSH2 d%d' % n, 'stack')]
+    for src, where in forms:
+        cnt += 1
+        ctx.ran()
+        ctx.trans()
+        try:
+            b = P_.compile_script(src)
+        except BaseException as ex:
+            ctx.outcome('literal:rejected')
+            if where == 'stack' and src.startswith(('OP_PUSH d', 'push d')) and len(e) <= MAX_ITEM:
+                ctx.violation({'op': 'PUSH', 'clause': 'decimal literal is accepted'}, f'{src[:60]}: {ex!r}')
+            continue
+        if where == 'lv1':
+            payload = b[2:2 + b[1]]
+            got = int.from_bytes(payload, 'big', signed=True) if payload else None
+        else:
+            try:
+                _, stack, _ = F.run_script(b, stack_max_item_size=max(MAX_ITEM, len(e) + 8))
+                items = stack.list()
+                got = int.from_bytes(items[-1], 'big', signed=True) if items and len(items[-1]) else None
+            except BaseException as ex:
+                got = repr(ex)
+        ctx.outcome('literal:ok')
+        if got != n:
+            ctx.violation({'op': src.split(' ')[0].upper().replace('OP_', ''), 'clause': 'a decimal literal denotes exactly that integer'},
+                          f'{src[:80]} -> {b.hex()[:80]}: denotes {str(got)[:60]}')
+    ctx.evaluations += cnt - 1
+
+
 def blocks(tier, seed):
     q = tier == 'quick'
     bl = []
@@ -574,6 +613,12 @@ def blocks(tier, seed):
     bl.append(Block('int_instructions_raised_item_limit', [8200, 14284, 14285, 14286, 16384, 32768, 60000], _instr_big,
                     'stack_max_item_size raised to 8192: operands +-(2^k + d), k up to 60000, x 8 second operands x all int instructions; '
                     'host int<->str digit limit at its default', nshards=7))
+    lits = sorted(set(boundary_ints(8 * 255 - 8)) | {10 ** k + d for k in (15, 16, 17, 18, 19, 20, 30, 100, 300) for d in (-1, 0, 1, 7)} |
+                  {-(10 ** k + 7) for k in (16, 17, 30)} | {(1 << 53) + d for d in range(-3, 12)} | {-((1 << 53) + d) for d in range(-3, 12)} |
+                  {(1 << 64) + 3, (1 << 63) + 5, 3 * (1 << 60) + 1, (1 << 200) + 12345})
+    bl.append(Block('decimal_literals_through_the_compiler', lits, _literals,
+                    'PUSH / PUSH1 / PUSH2 / DIV_INT / MOD_INT / variable assignment with decimal literals at every encoding boundary, around 2^53 '
+                    '(each of 2^53-3..2^53+11), powers of ten +-1 up to 10^300', nshards=32))
     edge = (32767, 32768, 32769, 65535, 65536)
     cc = [('SIZE', n) for n in list(range(0, 1001)) + list(edge[:4])] + [('SIZE2', 65536), ('SIZE2', 65537)] + [('DEPTH', n) for n in list(range(0, 1001)) + list(edge)] + \
         [(k, n) for k in ('READ_CACHE_SIZE', 'READ_CACHE_STACK_SIZE') for n in list(range(0, 300)) + list(edge)] + \
